@@ -129,6 +129,9 @@ fn build_message(id: u32, typ: Typ, rs: Option<u32>, sender: &Option<String>, me
             }
         }
     };
+    if matches!(typ, Typ::Call | Typ::Signal) {
+        msg.dynheader.response_serial = rs.and_then(NonZeroU32::new);
+    }
     msg.dynheader.sender = sender.clone();
     msg.body.push_param(id).unwrap();
     if big > 0 {
@@ -600,6 +603,17 @@ fn history(out: &mut Out, rng: &mut Prng, max_ops: usize) {
         let rs = if typ == Typ::Reply || typ == Typ::Error {
             let k = rng.below(unused_rs.len() as u64) as usize;
             Some(unused_rs.swap_remove(k))
+        } else if rng.chance(1, 4) {
+            // a call or signal that ALSO carries a REPLY_SERIAL field (the wire format and the header decoder allow it):
+            // its type decides where it goes; the serial is a fresh one or that of a real reply of this history
+            h.out.hit("call_or_signal_with_reply_serial");
+            let used: Vec<u32> = h.arr.iter().filter_map(|a| a.rs).collect();
+            if !used.is_empty() && rng.chance(1, 2) {
+                Some(*rng.pick(&used))
+            } else {
+                let k = rng.below(unused_rs.len() as u64) as usize;
+                Some(unused_rs.swap_remove(k))
+            }
         } else {
             None
         };
@@ -784,6 +798,110 @@ fn history(out: &mut Out, rng: &mut Prng, max_ops: usize) {
     h.out.case(&req, &obs, nontrivial);
 }
 
+/// A rejected call arriving while the client's send buffer is full (the peer is not reading): the unknown-method
+/// answer cannot be written at once. Whatever timeout the caller's refill uses, the call must still get exactly one
+/// answer. The peer starts reading only after a delay (from a helper thread, because the unchanged library blocks in
+/// the write until there is room). Evaluated directly on the implementation (the model has no notion of a full socket).
+fn full_send_buffer_case(out: &mut Out, rng: &mut Prng) {
+    use std::io::Read;
+    use std::os::unix::io::AsRawFd;
+    let (conn, mut server) = peer::connect_pair(false);
+    let fd = conn.send.as_raw_fd();
+    let v: i32 = 4608;
+    unsafe { libc::setsockopt(fd, libc::SOL_SOCKET, libc::SO_SNDBUF, &v as *const i32 as *const libc::c_void, 4) };
+    let mut rpc = RpcConn::new(conn);
+    rpc.set_filter(Box::new(|m| !matches!(m.typ, MessageType::Call)));
+    // fill the send buffer with whole signals
+    let mut filler = 0u32;
+    loop {
+        let mut sig = MessageBuilder::new().signal("a.b", "Fill", "/o").build();
+        sig.body.push_param(&vec![0x11u8; 500][..]).unwrap();
+        let ctx = rpc.conn_mut().send.send_message(&sig).unwrap();
+        match ctx.write(Timeout::Nonblock) {
+            Ok(_) => filler += 1,
+            Err((c, _)) => {
+                // SendMessageState derives Debug: "SendMessageState { bytes_sent: N, serial: S }"
+                let st = format!("{:?}", c.into_progress());
+                if st.contains("bytes_sent: 0,") {
+                    break;
+                }
+                // a partially written signal (the kernel takes messages of this size whole or not at all: not expected)
+                out.hit("fullbuf_partial_filler");
+                return;
+            }
+        }
+        if filler > 2000 {
+            return;
+        }
+    }
+    // the rejected call
+    let call_serial = 70 + rng.below(1000) as u32;
+    let mut call = MessageBuilder::new().call("Ma").on("/o/p").with_interface("a.b").at("org.me").build();
+    call.dynheader.sender = Some(":1.42".into());
+    let frame = frame_of(&call, call_serial);
+    server.write_all(&frame).unwrap();
+    let timeout = match rng.below(3) {
+        0 => Timeout::Nonblock,
+        1 => Timeout::Duration(Duration::from_millis(30)),
+        _ => Timeout::Duration(Duration::from_millis(120)),
+    };
+    let tname = match timeout {
+        Timeout::Nonblock => "nonblock",
+        Timeout::Duration(d) if d.as_millis() < 100 => "30ms",
+        _ => "120ms",
+    };
+    // the peer: starts reading after 250 ms, stops when nothing came for 400 ms
+    let reader = std::thread::spawn(move || {
+        std::thread::sleep(Duration::from_millis(250));
+        server.set_read_timeout(Some(Duration::from_millis(400))).unwrap();
+        let mut all = Vec::new();
+        let mut buf = [0u8; 65536];
+        loop {
+            match server.read(&mut buf) {
+                Ok(0) => break,
+                Ok(n) => all.extend_from_slice(&buf[..n]),
+                Err(_) => break,
+            }
+        }
+        all
+    });
+    let r = guard(|| match timeout {
+        Timeout::Nonblock => rpc.try_refill_once(Timeout::Nonblock).map(|_| ()),
+        t => rpc.refill_once(t).map(|_| ()),
+    });
+    let bytes = reader.join().unwrap();
+    let frames = peer::split_frames(&bytes).unwrap_or_default();
+    let mut errors = 0;
+    for f in &frames {
+        if let Ok(m) = peer::decode_frame(f) {
+            if m.typ == MessageType::Error {
+                errors += 1;
+                let ok = m.dynheader.response_serial.map(|s| s.get()) == Some(call_serial)
+                    && m.dynheader.destination.as_deref() == Some(":1.42")
+                    && m.dynheader.error_name.as_deref() == Some("org.freedesktop.DBus.Error.UnknownMethod");
+                if !ok {
+                    out.violation(&format!("c14.fullbuf {} {}", tname, filler), "the error written for the rejected call does not carry its serial / sender / UnknownMethod");
+                }
+            }
+        }
+    }
+    out.hit("fullbuf_case");
+    out.hit(&format!("fullbuf_refill_{}", tname));
+    if errors != 1 {
+        out.violation(
+            &format!("c14.fullbuf {} {}", tname, filler),
+            &format!("a rejected call arrived while the send buffer was full ({} filler signals queued); refill ({}) returned {:?}; the peer then read everything and found {} unknown-method answers instead of exactly one", filler, tname, r.as_ref().map(|x| x.as_ref().map_err(|e| format!("{:?}", e))), errors),
+        );
+    }
+    if call_handed_out(&mut rpc) {
+        out.violation(&format!("c14.fullbuf {} {}", tname, filler), "the rejected call was handed out");
+    }
+}
+
+fn call_handed_out(rpc: &mut RpcConn) -> bool {
+    rpc.try_get_call().is_some()
+}
+
 pub fn run(cfg: &Cfg) {
     std::panic::set_hook(Box::new(|_| {}));
     let mut out = Out::new(&cfg.outdir);
@@ -792,8 +910,11 @@ pub fn run(cfg: &Cfg) {
     for _ in 0..n {
         history(&mut out, &mut rng, max_ops);
     }
+    for _ in 0..(if cfg.thorough { 12 } else { 3 }) {
+        full_send_buffer_case(&mut out, &mut rng);
+    }
     out.finish(
-        "random histories on a real RpcConn (real DuplexConn + scripted peer): arrivals of calls / signals / replies / errors (unique marker in the body, distinct reply serials, senders present/absent, one message > 64 KiB in some histories, bursts of 2-4 messages in one write, messages split over two writes with client operations in between) interleaved with try_get_response/signal/call, refill_once / try_refill_once (Nonblock; also on an empty socket), refill_all, wait_response/signal/call (answer already in the socket; occasionally nothing to come, short timeout), under a random filter (default, accept all, reject all, by type subset, by marker parity, by member name, random table over markers); quick: 400 histories of 3..12 operations, thorough: 3000 of 3..40, each followed by an epilogue that reads and fetches everything; the model prints the whole observation log incl. error replies written to the peer; direct checks: nothing handed out twice, nothing rejected handed out, message intact, right consumer / reply serial, signals and calls in arrival order, every produced error is an UnknownMethod error for a not yet answered rejected call (its serial, its sender), at the end every accepted message handed out and every rejected call answered; distinct by request; non-trivial = at least two arrivals and one delivery",
+        "a rejected call arriving while the client's send buffer is full and the peer starts reading only 250 ms later, consumed by try_refill_once / refill_once with a 30 ms / 120 ms timeout: exactly one unknown-method answer must reach the peer (direct check); random histories on a real RpcConn (real DuplexConn + scripted peer): arrivals of calls / signals / replies / errors (unique marker in the body, distinct reply serials, senders present/absent, one message > 64 KiB in some histories, bursts of 2-4 messages in one write, messages split over two writes with client operations in between) interleaved with try_get_response/signal/call, refill_once / try_refill_once (Nonblock; also on an empty socket), refill_all, wait_response/signal/call (answer already in the socket; occasionally nothing to come, short timeout), under a random filter (default, accept all, reject all, by type subset, by marker parity, by member name, random table over markers); quick: 400 histories of 3..12 operations, thorough: 3000 of 3..40, each followed by an epilogue that reads and fetches everything; the model prints the whole observation log incl. error replies written to the peer; direct checks: nothing handed out twice, nothing rejected handed out, message intact, right consumer / reply serial, signals and calls in arrival order, every produced error is an UnknownMethod error for a not yet answered rejected call (its serial, its sender), at the end every accepted message handed out and every rejected call answered; distinct by request; non-trivial = at least two arrivals and one delivery",
         false,
     );
 }
